@@ -409,16 +409,20 @@ void BSLightingShaderProperty::Sync(NiStreamReversible& stream) {
 	}
 
 	if (stream.GetVersion().Stream() > 139) {
-		stream.Sync(bslspShaderType);
+		// Adjust shader type to old value internally due to removed Height/Parallax enum value (3).
+		// The stored value is converted on a copy, so that writing is the inverse of reading
+		// and does not change the shader type of the object.
+		uint32_t storedShaderType = bslspShaderType;
+		if (stream.GetMode() == NiStreamReversible::Mode::Writing && storedShaderType > 4)
+			storedShaderType -= 1;
 
-		// Adjust shader type to old value internally due to removed Height/Parallax enum value (3)
+		stream.Sync(storedShaderType);
+
 		if (stream.GetMode() == NiStreamReversible::Mode::Reading) {
-			if (bslspShaderType > 3)
-				bslspShaderType += 1;
-		}
-		else {
-			if (bslspShaderType >= 3)
-				bslspShaderType -= 1;
+			if (storedShaderType > 3)
+				storedShaderType += 1;
+
+			bslspShaderType = storedShaderType;
 		}
 	}
 
